@@ -273,6 +273,25 @@ SlowRewGames ==
             q \in { <<Tr("", 2, 7), Tr("", 3, 6)>>, <<Tr("", 1, 7), Tr("", 1, 6)>>, <<Tr("", 3, 7), Tr("", 2, 6)>> },
             rL \in {1, 5}, rQ \in {0, 100, 1000} }
 
+(* Gap5: two competitors whose values differ by 9.4e-6 -- far beyond the      *)
+(* threshold and the guard of the strategy clauses -- but lie in the same     *)
+(* bucket of width 1e-5 (0.5000052 and 0.5000146; rewards 0.0000052 and       *)
+(* 0.0000146): whoever compares at five decimals instead of six sees a tie.   *)
+(*   1 chooser ; 2 X ; 3 Y ; 4 T (1/12019) ; 5 lose ; 6 win ; 7 V (reward 1)  *)
+Gap5Games ==
+    LET mk(o, swap, rewardKind, third) ==
+          LET xy == IF swap THEN <<Tr("y", 0, 3), Tr("x", 0, 2)>> ELSE <<Tr("x", 0, 2), Tr("y", 0, 3)>>
+          IN  [n |-> 7,
+               owner  |-> <<o, PR, PR, PR, PR, PR, PR>>,
+               reward |-> <<0, 0, 0, 0, 0, 0, IF rewardKind THEN 1 ELSE 0>>,
+               tr |-> << IF third THEN xy \o <<Tr("z", 0, IF rewardKind THEN 6 ELSE 5)>> ELSE xy,
+                         IF rewardKind THEN <<Tr("", 75, 6), Tr("", 5, 4)>> ELSE <<Tr("", 40, 6), Tr("", 35, 5), Tr("", 5, 4)>>,
+                         IF rewardKind THEN <<Tr("", 66, 6), Tr("", 14, 4)>> ELSE <<Tr("", 40, 6), Tr("", 26, 5), Tr("", 14, 4)>>,
+                         IF rewardKind THEN <<Tr("", 1, 7), Tr("", 12018, 6)>> ELSE <<Tr("", 1, 6), Tr("", 12018, 5)>>,
+                         <<Tr("", 1, 5)>>, <<Tr("", 1, 6)>>, <<Tr("", 1, 6)>> >>,
+               final |-> <<6>>]
+    IN  { mk(o, swap, rk, third) : o \in {P1, P2}, swap \in BOOLEAN, rk \in BOOLEAN, third \in BOOLEAN }
+
 (* ZeroW: probabilistic transitions of weight 0 (never taken, but present):  *)
 (* into dead states, into the final state, next to live ones.                *)
 (*   1 chooser ; 2 chance with a zero-weight edge ; 3 live ; 4 dead ; 5 lose ; 6 win *)
